@@ -440,3 +440,25 @@ Theorem C08_filtered_is_copy_then_filter : forall w sti st vd r w2 (v : nat -> v
     Machine.get_tree w2 sti = Some st.
 Proof. exact GlueFilter.copy_then_filter_is_filtered. Qed.
 Print Assumptions C08_filtered_is_copy_then_filter.
+
+(* non-vacuity: a(1) > b(2), c(3); copied to 4 > 5, 6; the predicate says False / True / SkipBranch *)
+Definition c08g_dd (z : Z) : Machine.dat := Machine.D z z z false [z].
+Definition c08g_w : Machine.world :=
+  Machine.run [Machine.ONewTree false None; Machine.OAdd 0 0 (c08g_dd 1) None None Machine.BNone;
+               Machine.OAdd 0 1 (c08g_dd 2) None None Machine.BNone; Machine.OAdd 0 0 (c08g_dd 3) None None Machine.BNone] Machine.empty_world.
+Definition c08g_vsrc : Machine.verdicts := [(1, Machine.VFalse); (2, Machine.VTrue); (3, Machine.VSkip)].
+Definition c08g_vcopy : Machine.verdicts := [(4, Machine.VFalse); (5, Machine.VTrue); (6, Machine.VSkip)].
+Example C08_filtered_is_copy_then_filter_nonvacuous :
+  exists st r w2,
+    WF.wf_world_b c08g_w = true /\ Machine.get_tree c08g_w 0 = Some st /\
+    (forall k, k < size_f (Machine.forest_of st) ->
+       EffectsMore.vof c08g_vcopy (Machine.next c08g_w + k) = EffectsMore.vof c08g_vsrc (nth k (ids (Machine.forest_of st)) 0)) /\
+    (forall x, In x (pre_f (Machine.forest_of st)) -> GlueFilter.cpi (Machine.typed st) None (rinfo x) = rinfo x) /\
+    Machine.op_filter (snd (Machine.op_tree_copy c08g_w 0)) 1 0 c08g_vcopy = (Machine.Ok r, w2) /\
+    map rid (pre_f (Machine.forest_of (nth 1 (Machine.trees w2) (Machine.TS [] [] [] false None)))) = [4; 5] /\
+    map rid (pre_f (F (EffectsMore.vof c08g_vsrc) (Machine.forest_of st))) = [1; 2].
+Proof.
+  eexists _, _, _. split; [vm_compute; reflexivity|]. split; [vm_compute; reflexivity|]. split; [|split; [|split; [vm_compute; reflexivity|split; vm_compute; reflexivity]]].
+  - intros k Hk. do 3 (destruct k as [|k]; [vm_compute; reflexivity|]). exfalso. vm_compute in Hk. do 3 apply le_S_n in Hk. inversion Hk.
+  - intros x Hx. vm_compute in Hx. destruct Hx as [<-|[<-|[<-|[]]]]; vm_compute; reflexivity.
+Qed.
